@@ -17,12 +17,13 @@ type ruleSet struct {
 
 var ruleSets = map[string]func(a *Analyzer, r *Results){
 	"ingest": runIngest,
+	"proof":  runProof,
 }
 
 // which rule sets each property needs
 var propSets = map[string][]string{
-	"C01": {"ingest"}, "C03": {"ingest"}, "C04": {"ingest"}, "C05": {"ingest"}, "C07": {"ingest"}, "C08": {"ingest"},
-	"C09": {"ingest"}, "C10": {"ingest"}, "C11": {"ingest"}, "C15": {"ingest"}, "C17": {"ingest"},
+	"C01": {"ingest", "proof"}, "C03": {"ingest"}, "C04": {"ingest"}, "C05": {"ingest"}, "C07": {"ingest", "proof"}, "C08": {"ingest", "proof"},
+	"C09": {"ingest"}, "C10": {"ingest"}, "C11": {"ingest", "proof"}, "C15": {"ingest"}, "C17": {"ingest"},
 }
 
 // minimum number of obligation instances per rule confirmed by reading (vacuity guard)
